@@ -157,9 +157,23 @@ Branch_Rej(n, b, u) ==
 (* POST /api/node/<n>/tag {"tag": t}: a committed child on branch "tag-t"  *)
 (* whose UUID is t.                                                        *)
 (***************************************************************************)
+\* ---- odd identifier arguments (third round; used by NextX only, Next never offers them) ----
+\* Strings a client may send where an identifier is expected.  The driver maps them to concrete
+\* strings: "empty" = "", "short" = a few hex digits, "nonhex" = 32 characters that are not all hex
+\* digits, "colon" / "tilde" = a string with ':' / '~', "pref<n>" = a proper prefix of node n's UUID.
+OddFixed == {"empty", "short", "nonhex", "colon", "tilde"}
+PrefName(n) == "pref" \o ToString(n)
+AllPrefNames == {PrefName(n) : n \in 1..MaxNodes}
+\* An identifier assigned through "root", "uuid" or an RPC argument must be a 32-digit hexadecimal
+\* string (dvid.UUID): none of the odd strings is one.  A tag only has to be usable as an address:
+\* not empty, and free of ':' (everything after the first colon of an address is a branch name) and
+\* '~' (its branch "tag-<t>" would hold the parent-number separator).
+OddTagNames == {"short", "nonhex"} \cup AllPrefNames
 TagBranch(t) == "tag-" \o t
 
-G_Tag(n, t) == n \in Live /\ CanVersion(n, TagBranch(t)) /\ t \in UUIDPool /\ t \notin UsedUUIDs
+\* (third round) a tag is "a unique string across the DAG (including UUIDs)": besides the 32-hex strings of
+\* the pool, the strings of OddTagNames (defined with the odd arguments below) are legal tags
+G_Tag(n, t) == n \in Live /\ CanVersion(n, TagBranch(t)) /\ t \in UUIDPool \cup OddTagNames /\ t \notin UsedUUIDs
 
 Tag_Ok(n, t) ==
     /\ nn < MaxNodes
@@ -521,4 +535,141 @@ StateRec ==
     [nn |-> nn, par |-> par, kids |-> kids, br |-> br, lk |-> lk, kind |-> kind, rp |-> rp, uid |-> uid,
      heads |-> {[root |-> x[1], branch |-> x[2], node |-> head[x]] : x \in DOMAIN head},
      dead |-> dead]
+
+(***************************************************************************)
+(* THIRD ROUND: odd arguments (NextX).  Strings that are not identifiers    *)
+(* where an identifier is expected, branch names that look like a tag's    *)
+(* branch or hold a '/', a merge type other than "conflict-free", the node *)
+(* note.  None of this is offered by Next / NextG: the earlier state       *)
+(* graphs stay as they were.                                               *)
+(***************************************************************************)
+OddUUIDArgs == OddFixed \cup {PrefName(n) : n \in Live}
+\* where an identifier to assign is optional ("root", "uuid", the RPC argument) an empty string may as well
+\* mean "none given": only a tag request must refuse it
+OddAssignArgs == OddUUIDArgs \ {"empty"}
+\* "tag-<u>" is the branch a tag request with tag u makes; "a/b" cannot be written into a URL path
+\* segment but is an ordinary name otherwise
+OddBranches == {"a/b"} \cup {TagBranch(u) : u \in UUIDPool}
+NodeArgsX == Nodes \cup {NoNode}
+
+NextX ==
+    \/ Next
+    \/ \E u \in OddAssignArgs : NewRepo_Ok(u) \/ NewRepo_Rej(u)
+    \/ \E n \in NodeArgsX, u \in OddAssignArgs : NewVersion_Ok(n, u) \/ NewVersion_Rej(n, u)
+    \/ \E n \in NodeArgsX, b \in Branches, u \in OddAssignArgs : Branch_Ok(n, b, u) \/ Branch_Rej(n, b, u)
+    \/ \E n \in NodeArgsX, t \in OddUUIDArgs : Tag_Ok(n, t) \/ Tag_Rej(n, t)
+    \/ \E n \in NodeArgsX, b \in OddBranches : Branch_Ok(n, b, "auto") \/ Branch_Rej(n, b, "auto")
+SpecX == Init /\ [][NextX]_vars
+
+\* number of versions that carry an odd identifier or branch name (bounds the exploration of NextX)
+\* (a branch "tag-<u>" counts when it was not made by a tag request)
+OddCount == Cardinality({n \in Nodes : \/ uid[n] \in OddTagNames
+                                        \/ br[n] = "a/b"
+                                        \/ \E t \in OddTagNames : br[n] = TagBranch(t)
+                                        \/ \E u \in UUIDPool : /\ br[n] = TagBranch(u)
+                                                                 /\ ~\E m \in Nodes : uid[m] = u /\ br[m] = TagBranch(u)})
+
+\* What an address that consists of a version's own identifier names.  The resolver accepts
+\* shortened identifiers, so a string can be one version's identifier and a proper prefix of
+\* another's (a short tag): the version whose identifier it IS wins; only when there is none does
+\* a unique prefix match count.  (A resolver that only scans for prefixes would find two versions
+\* and refuse: the tagged version could never be addressed.)
+ExactMatch(n) == {m \in Live : m = n \/ (uid[m] # "auto" /\ uid[m] = uid[n])}
+LongerMatch(n) == {m \in Live : uid[n] = PrefName(m)}      \* versions whose identifier n's identifier is a proper prefix of
+ResolveOwn(n) == IF Cardinality(ExactMatch(n)) = 1 THEN n ELSE NoNode
+Inv_SelfResolve == \A n \in Live : ResolveOwn(n) = n
+Inv_C07X == Inv_C07 /\ Inv_SelfResolve
+
+\* what the shortened identifier "pref<k>" names: the version tagged with exactly that string, else k
+PrefObsX == {[name |-> PrefName(k),
+              node |-> IF \E m \in Live : uid[m] = PrefName(k) THEN CHOOSE m \in Live : uid[m] = PrefName(k) ELSE k]
+                : k \in {j \in Live : uid[j] \notin OddTagNames}}
+
+\* ---- classes of refused requests (for a stratified replay sample: request kind x argument kind) ----
+MergeNodes == {n \in Live : kind[n] = "merge"}
+NodeRel(n) == IF n = NoNode THEN "unknown"
+              ELSE IF n \notin Live THEN "dead"
+              ELSE IF kind[n] = "merge" THEN "merge"
+              ELSE IF \E m \in MergeNodes : m \in AncOf(n) THEN "belowmerge"
+              ELSE IF \E m \in MergeNodes : n \in Range(par[m]) THEN "mergeparent"
+              ELSE "plain"
+UKind(u) == IF u \in OddFixed THEN u
+            ELSE IF u \in AllPrefNames THEN "pref"
+            ELSE IF u = "auto" THEN "auto"
+            ELSE IF u \in UUIDPool THEN "pool"
+            ELSE IF \E m \in MergeNodes : u = "dup" \o ToString(m) THEN "dupmerge"
+            ELSE "dup"
+ParentBad(ps, i) ==
+    IF ps[i] = NoNode THEN "unknown"
+    ELSE IF ps[i] \notin Live THEN "dead"
+    ELSE IF ~lk[ps[i]] THEN "open"
+    ELSE IF ps[1] \in Live /\ rp[ps[i]] # rp[ps[1]] THEN "foreign"
+    ELSE IF \E j \in 1..(i-1) : ps[j] = ps[i] THEN "repeated"
+    ELSE ""
+BadPositions(ps) == {i \in 1..Len(ps) : ParentBad(ps, i) # ""}
+MergeCls(ps) ==
+    LET B == BadPositions(ps) IN
+    "merge|" \o ToString(Len(ps)) \o "|"
+      \o (IF Cardinality(B) = 1 THEN "only" \o ToString(CHOOSE i \in B : TRUE) \o ":" \o ParentBad(ps, CHOOSE i \in B : TRUE)
+          ELSE "several")
+      \o (IF \E i \in 1..Len(ps) : ps[i] \in MergeNodes THEN "|mergeparent" ELSE "")
+ClsOf(r) ==
+    IF r.op = "merge" THEN MergeCls(r.parents)
+    ELSE IF r.op = "newrepo" THEN "newrepo|" \o UKind(r.uuid)
+    ELSE IF r.op = "newversion" THEN "newversion|" \o NodeRel(r.node) \o "|" \o UKind(r.uuid)
+    ELSE IF r.op = "branch" THEN "branch|" \o NodeRel(r.node) \o "|" \o r.branch \o "|" \o UKind(r.uuid)
+    ELSE IF r.op = "tag" THEN "tag|" \o NodeRel(r.node) \o "|" \o UKind(r.tag)
+    ELSE r.op \o "|" \o NodeRel(r.node)
+
+\* the first-round refused requests of the state over the full argument domain (unknown node, the
+\* identifier of every live version as a duplicate), whatever WithRejects; of the merges only those
+\* with at most one bad parent
+DupAll == {"dup" \o ToString(n) : n \in Live}
+UUIDArgsAll == {"auto"} \cup UUIDPool \cup DupAll
+ParentSeqsAll ==
+    {<<a, b>> : a \in NodeArgsX, b \in NodeArgsX} \cup
+    (IF MaxParents >= 3 THEN {<<a, b, c>> : a \in NodeArgsX, b \in NodeArgsX, c \in NodeArgsX} ELSE {})
+RejectedOpsAll ==
+    {[op |-> "newrepo", uuid |-> u] : u \in {v \in UUIDArgsAll : ~G_NewRepo(v)}}
+    \cup {[op |-> "commit", node |-> n] : n \in {m \in NodeArgsX : ~G_Commit(m)}}
+    \cup {[op |-> "newversion", node |-> x[1], uuid |-> x[2]] : x \in {y \in NodeArgsX \X UUIDArgsAll : ~G_NewVersion(y[1], y[2])}}
+    \cup {[op |-> "branch", node |-> x[1], branch |-> x[2], uuid |-> x[3]] :
+              x \in {y \in NodeArgsX \X (Branches \cup {"", "master"}) \X UUIDArgsAll : ~G_Branch(y[1], y[2], y[3])}}
+    \cup {[op |-> "tag", node |-> x[1], tag |-> x[2]] : x \in {y \in NodeArgsX \X (UUIDPool \cup DupAll) : ~G_Tag(y[1], y[2])}}
+    \cup {[op |-> "merge", parents |-> ps] : ps \in {q \in ParentSeqsAll : ~MergeArgsOK(q) /\ Cardinality(BadPositions(q)) <= 1}}
+    \cup {[op |-> "deleterepo", node |-> n] : n \in {m \in NodeArgsX : ~G_DeleteRepo(m)}}
+    \cup {[op |-> k, node |-> n] : k \in NeutralKinds, n \in Live}
+
+\* odd requests that must be refused in the current state
+RejectedOdd ==
+    {[op |-> "newrepo", uuid |-> u] : u \in OddAssignArgs}
+    \cup {[op |-> "newversion", node |-> x[1], uuid |-> x[2]] : x \in NodeArgsX \X OddAssignArgs}
+    \cup {[op |-> "branch", node |-> x[1], branch |-> "a", uuid |-> x[2]] : x \in NodeArgsX \X OddAssignArgs}
+    \cup {[op |-> "tag", node |-> x[1], tag |-> x[2]] : x \in {y \in NodeArgsX \X OddUUIDArgs : ~G_Tag(y[1], y[2])}}
+    \cup {[op |-> "branch", node |-> x[1], branch |-> x[2], uuid |-> "auto"] :
+              x \in {y \in NodeArgsX \X OddBranches : ~G_Branch(y[1], y[2], "auto")}}
+\* a merge of acceptable parents with a merge type other than "conflict-free": refused whatever the parents
+RejectedMergeType == {[op |-> "mergebadtype", parents |-> ps] : ps \in {q \in ParentSeqsAll : MergeArgsOK(q)}}
+\* POST node/<n>/note: whatever the answer (refused on a committed version), the graph stays as it is
+NeutralX == {[op |-> "nodenote", node |-> n] : n \in Live}
+
+\* one representative request per class (request kind x argument kinds) of the state; the first-round
+\* requests only at states that hold a merge version (no earlier replay sends a refused request there)
+\* a repo made with a passcode is deleted only by a request that carries it ("deleterepowrong": the root's UUID
+\* with another passcode)
+RejectedPasscode == {[op |-> "deleterepowrong", node |-> n] : n \in LiveRoots}
+
+RejectedX ==
+    LET T == {<<ClsOf(r), r>> : r \in RejectedOdd \cup NeutralX \cup RejectedPasscode \cup (IF MergeNodes # {} THEN RejectedOpsAll ELSE {})}
+    IN {(CHOOSE y \in {z \in T : z[1] = c} : TRUE)[2] @@ [cls |-> c] : c \in {z[1] : z \in T}}
+       \cup (IF RejectedMergeType = {} THEN {} ELSE {(CHOOSE r \in RejectedMergeType : TRUE) @@ [cls |-> "mergebadtype"]})
+
+\* after an accepted odd request: the tag / odd-branch requests that must be refused in the new state
+\* (a tag whose branch name is taken, a second use of a tag, a taken odd branch name)
+RejectedFollow ==
+    {[op |-> "tag", node |-> x[1], tag |-> x[2]] :
+        x \in {y \in Nodes \X (UUIDPool \cup {t \in OddTagNames : t \in UsedUUIDs}) : ~G_Tag(y[1], y[2])}}
+    \cup {[op |-> "branch", node |-> x[1], branch |-> x[2], uuid |-> "auto"] :
+              x \in {y \in Nodes \X OddBranches : ~G_Branch(y[1], y[2], "auto")}}
+
 =============================================================================
